@@ -675,6 +675,7 @@ def rule_scheduler_run(rep, repo, tier):
     cfg = "QNoiseScheduler(%s)" % ", ".join("%s=%r" % kv
                                             for kv in sorted(sc.items()))
     log = []
+    builds = []
 
     def mkq(name, knob=True, factor=1.0):
       at = {"name": name, "use_ste": None, "use_variables": False,
@@ -688,12 +689,17 @@ def rule_scheduler_run(rep, repo, tier):
         log.append((m.attrs["name"], v))
         m.attrs["qnoise_factor"] = v
       m.attrs["update_qnoise_factor"] = upd
-      m.attrs["build"] = lambda pe, a, k: None
+      m.attrs["build"] = lambda pe, a, k, m=m: builds.append(
+          (m.attrs["name"], k.get("use_variables",
+                                  a[1] if len(a) > 1 else None)))
       return m
     q1, q2, q3 = mkq("q1"), mkq("q2", knob=False), mkq("q3")
     # a knob that currently stands at 0 (pre-training without quantization,
     # or left there by an earlier phase) is a knob all the same
     q4 = mkq("q4", factor=0.0)
+    # built in python-float mode before the scheduler attaches (what building
+    # a model does): it has to be rebuilt with a variable-backed factor
+    q4.attrs["built"] = True
     model = Mock("model", {"layers": [
         Mock("layer with quantizers", {"quantizers": [q2, q1, None, q4]}),
         Mock("activation layer", {"quantizer": q3}),
@@ -748,6 +754,12 @@ def rule_scheduler_run(rep, repo, tier):
               "%s: use_variables / use_ste of the driven quantizers are %r" %
               (cfg, [(q.attrs["use_variables"], q.attrs["use_ste"])
                      for q in (q1, q3, q4)]), loc=loc, instance=cfg)
+    rep.check(builds == [("q4", True)], "R6", unit,
+              "built-quantizer-not-rebuilt-with-variables",
+              "%s: build() calls %r; the quantizer that was already built "
+              "with a python-float factor (q4), and only that one, must be "
+              "rebuilt with use_variables=True" % (cfg, builds), loc=loc,
+              instance=cfg, observed=str(builds))
     init = sc.get("initial_step_or_epoch", 0)
     uf = sc.get("update_freq", 1)
     last = F(0)
